@@ -218,6 +218,7 @@ var replPool = []string{
 	"\u09b2\u09c7\u09a8 = 0;",                // assignment to a built-in's name (the parser allows it): echo
 	"\u09a6\u09c7\u0996\u09be\u0993 1.",      // ends in digits and a point: syntax error (the line has no newline behind it)
 	"/* note *",                              // unterminated comment whose last character is '*'
+	"\u09af\u09a4\u0995\u09cd\u09b7\u09a3 (\u09b8\u09a4\u09cd\u09af) { z; }", // a loop that only a failure ends: the line is over at its first diagnostic
 }
 
 // VH_repl: a session of k lines from the pool; each line's response must be what the same
